@@ -45,7 +45,8 @@ impl Slot {
     /// Returns a double-ended iterator that yields all the slots in the window `self` is in.
     pub fn slots_in_window(self) -> impl DoubleEndedIterator<Item = Slot> {
         let start = self.first_slot_in_window();
-        (start.0..start.0 + SLOTS_PER_WINDOW).map(Self)
+        // inclusive range, the exclusive upper bound overflows for the last window
+        (start.0..=start.0 + (SLOTS_PER_WINDOW - 1)).map(Self)
     }
 
     /// Returns an infinite iterator that yields all the slots after `self`.
@@ -61,9 +62,8 @@ impl Slot {
 
     /// Returns the last slow in the window this slot belongs to.
     pub const fn last_slot_in_window(&self) -> Slot {
-        let window = self.0 / SLOTS_PER_WINDOW;
-        let next_window = window + 1;
-        Self(next_window * SLOTS_PER_WINDOW - 1)
+        // not via the start of the next window, which overflows for the last window
+        Self(self.first_slot_in_window().0 + (SLOTS_PER_WINDOW - 1))
     }
 
     /// Returns true if `self` is the first slot in the window.
@@ -135,5 +135,19 @@ mod tests {
             assert_eq!(last_slot.next(), window_slots[window + 1]);
             assert_eq!(last_slot, window_slots[window + 1].prev());
         }
+    }
+
+    #[test]
+    fn last_window() {
+        // window arithmetic must not overflow for the highest slots
+        let last = Slot::new(u64::MAX);
+        let first = last.first_slot_in_window();
+        assert!(first.is_start_of_window());
+        assert_eq!(first.last_slot_in_window(), last);
+        assert_eq!(last.last_slot_in_window(), last);
+        let slots = last.slots_in_window().collect::<Vec<_>>();
+        assert_eq!(slots.len() as u64, SLOTS_PER_WINDOW);
+        assert_eq!(slots.first(), Some(&first));
+        assert_eq!(slots.last(), Some(&last));
     }
 }
